@@ -17,7 +17,10 @@
 From Coq Require Import List Arith ZArith Bool.
 Import ListNotations.
 
-Inductive err := EUser (n : nat) | ECancelled.
+(** exception classes: application errors (Exception), CancelledError, and application exceptions that derive from
+    BaseException but not from Exception (not caught by [except Exception]) *)
+Inductive err := EUser (n : nat) | ECancelled | EBase (n : nat).
+Definition is_base (e : err) : bool := match e with EBase _ => true | _ => false end.
 Inductive val := VInt (z : Z) | VNone.
 Inductive outcome := Val (v : val) | Exc (e : err).
 
@@ -42,6 +45,7 @@ Inductive stmt :=
 | SYield (z : Z)                    (* x = yield z; log(x) *)
 | SMark (n : nat)
 | SRaise (n : nat)                  (* raise UserErr(n) *)
+| SRaiseBase (n : nat)              (* raise BaseErr(n), BaseErr a subclass of BaseException only *)
 | SReturn (z : Z)
 | SSeq (a b : stmt)
 | STry (body handler : stmt)        (* try: body  except Exception as e: log(e); handler *)
@@ -58,9 +62,10 @@ Fixpoint denote (s : stmt) (kn : gen) (kr : err -> gen) (kret : val -> gen) : ge
   | SYield z => GYieldV (VInt z) (fun o => match o with Val v => GLog (SawPlain v) kn | Exc e => kr e end)
   | SMark n => GLog (Mark n) kn
   | SRaise n => kr (EUser n)
+  | SRaiseBase n => kr (EBase n)
   | SReturn z => kret (VInt z)
   | SSeq a b => denote a (denote b kn kr kret) kr kret
-  | STry b h => denote b kn (fun e => GLog (SawExc e) (denote h kn kr kret)) kret
+  | STry b h => denote b kn (fun e => if is_base e then kr e else GLog (SawExc e) (denote h kn kr kret)) kret
   | SFinally b f =>
       denote b (denote f kn kr kret) (fun e => denote f (kr e) kr kret) (fun v => denote f (kret v) kr kret)
   | SLoop n b =>
